@@ -220,8 +220,12 @@ class FetchCommand(CommandSelect):
             pass
         if not attr_list:
             params_copy = params.copy(expected=[FetchAttribute])
-            attr_list_p, buf = List.parse(buf, params_copy)
+            attr_list_p, buf_after = List.parse(buf, params_copy)
             attr_list = attr_list_p.get_as(FetchAttribute)
+            if not attr_list:
+                # fetch-att list and the msg-att of the response are 1*
+                raise NotParseable(buf)
+            buf = buf_after
         if params.uid:
             attr_list = list(attr_list) + [FetchAttribute(b'UID')]
         options, buf = ExtensionOptions.parse(buf, params)
